@@ -67,7 +67,7 @@ func VerifC12Dep() {
 	}
 	if prefetch {
 		ne := binary.LittleEndian.Uint32(data[headerSize+4:])
-		verifAssume(ne <= 2 || ne >= 4000) // the prefetch buffer length (and its clipping to the section) is concretised
+		verifAssume(ne <= 2 || ne >= 8000) // the prefetch buffer length (and its clipping to the section) is concretised
 	}
 	i := verifU64("bucket")
 	verifAssume(i == 0 || i > uint64(E/bucketHdrLen) || i >= uint64(nb))
